@@ -23,8 +23,8 @@ def run(rep, tier, seed, replay):
                        "reopen), the real resume_save_progress + resume_save_uncertain_pieces, crash (loss set, perturbations), "
                        "real load + check; the saved object (per-file mtime class, bitfield form, uncertain list) and the result "
                        "are compared with the model (saved_mtime, uncertain_saved, hash_succeeded, load, check); real mtimes are "
-                       "compared as classes (real / ~0 / ~1 / ~2 / ~3), the 60-minute pruning of the completed list is modelled "
-                       "but not reached by the generated histories",
+                       "compared as classes (real / ~0 / ~1 / ~2 / ~3); the completed list's length at the last save (cl=) is "
+                       "compared too, which makes the 60/30-minute pruning visible (histories with two download rounds)",
                        "python property oracle gen/c10.py:oracle (bits vs OpenSSL verdict over the files; genuineness of a case)"]))
     model = ltv.build_model("C10")
     impl = ltv.build_harness("c10", ["c10.cc", "common/session.cc"])
@@ -38,6 +38,7 @@ def run(rep, tier, seed, replay):
     nontrivial, mism, samples = set(), 0, []
     outcomes = {"Ignored": 0, "Loaded": 0, "Threw": 0, "T": 0}
     branches = {}
+    pruned = inflight = save_unchecked = 0
     for i, case in enumerate(cases):
         m = mo[i] if i < len(mo) else "MISSING"
         full = io[i] if i < len(io) else "MISSING"
@@ -47,6 +48,15 @@ def run(rep, tier, seed, replay):
             outcomes["T"] += 1
             if " unc=" in o and " unc=none" not in o:
                 nontrivial.add(hashlib.sha1(case.encode()).digest())
+            ndl = sum(len(x.partition("=")[2].split(",")) for x in case.split("|")[2].split() if x.startswith("dl=") or x.startswith("dlhold="))
+            nmiss = len([x for x in case.split("|")[1].split(",") if x.strip() not in ("", "-")])
+            cl = o.partition(" cl=")[2].split(" ")[0]
+            if cl.isdigit() and " dl" in case and int(cl) < (nmiss if " dl " in case + " " else ndl):
+                pruned += 1
+            if "inflight=" in full and full.partition("inflight=")[2].split(" ")[0] not in ("0", "-"):
+                inflight += 1
+            if "openonly save" in case:
+                save_unchecked += 1
         for br in G.model_branches(case, full):
             branches[br] = branches.get(br, 0) + 1
         for k in ("Ignored", "Loaded", "Threw"):
@@ -77,7 +87,9 @@ def run(rep, tier, seed, replay):
                    rule="cases = corpus + hand list + honest resume objects + malformed resume objects (L, model compared) + "
                         "two real lifetimes with a session history (T, model compared incl. the saved object); non-trivial = distinct L case that loads, requests a recheck of some "
                         "piece and ends with some piece set",
-                   samples=samples, input_distribution=stats, mismatches=mism, outcomes=outcomes, model_branches=dict(sorted(branches.items())), exhaustive=False)
+                   samples=samples, input_distribution=stats, mismatches=mism, outcomes=outcomes, model_branches=dict(sorted(branches.items())),
+                   histories_with_pruned_completed_list=pruned, saves_with_pieces_in_flight=inflight,
+                   saves_during_hashing=save_unchecked, exhaustive=False)
     rep.assumptions += ["files are readable regular files or absent (C09 covers the other disk states)",
                         "a rewritten file changes size or mtime (seconds) unless the case says otherwise",
                         "padding files only in L cases"]
